@@ -70,29 +70,37 @@ theorem provUnassign_quiet (s : State) (node : String) (ip : IP) : QuietStep s (
   unfold provUnassign
   split
   · exact QuietStep.refl s
-  · exact ⟨⟨rfl, rfl, rfl, rfl, rfl, rfl, rfl, rfl, rfl, rfl, rfl, rfl, rfl, rfl, Nat.le_refl _⟩, rfl, rfl, rfl⟩
+  · split
+    · exact QuietStep.refl s
+    · exact ⟨⟨rfl, rfl, rfl, rfl, rfl, rfl, rfl, rfl, rfl, rfl, rfl, rfl, rfl, rfl, Nat.le_refl _⟩, rfl, rfl, rfl⟩
 
 theorem provUnassign_log (s : State) (node : String) (ip : IP) :
     UnassignsWithin s (provUnassign s node ip).1 (fun j => j = ip) := by
   unfold provUnassign
   split
   · exact UnassignsWithin.refl s _
-  · exact ⟨[.unassign node ip (!(s.pcalls + 1 == s.pfault))], rfl, fun c hc n j ok hce => by
-      simp at hc; rw [hc] at hce; cases hce; rfl⟩
+  · split
+    · exact UnassignsWithin.refl s _
+    · exact ⟨[.unassign node ip (!(s.pcalls + 1 == s.pfault))], rfl, fun c hc n j ok hce => by
+        simp at hc; rw [hc] at hce; cases hce; rfl⟩
 
 theorem provAssign_quiet (s : State) (node : String) (ip : IP) : QuietStep s (provAssign s node ip).1 := by
   unfold provAssign
   split
   · exact QuietStep.refl s
-  · exact ⟨⟨rfl, rfl, rfl, rfl, rfl, rfl, rfl, rfl, rfl, rfl, rfl, rfl, rfl, rfl, Nat.le_refl _⟩, rfl, rfl, rfl⟩
+  · split
+    · exact QuietStep.refl s
+    · exact ⟨⟨rfl, rfl, rfl, rfl, rfl, rfl, rfl, rfl, rfl, rfl, rfl, rfl, rfl, rfl, Nat.le_refl _⟩, rfl, rfl, rfl⟩
 
 theorem provAssign_log (s : State) (node : String) (ip : IP) (ips : IP → Prop) :
     UnassignsWithin s (provAssign s node ip).1 ips := by
   unfold provAssign
   split
   · exact UnassignsWithin.refl s _
-  · exact ⟨[.assign node ip (!(s.pcalls + 1 == s.pfault))], rfl, fun c hc n j ok hce => by
-      simp at hc; rw [hc] at hce; cases hce⟩
+  · split
+    · exact UnassignsWithin.refl s _
+    · exact ⟨[.assign node ip (!(s.pcalls + 1 == s.pfault))], rfl, fun c hc n j ok hce => by
+        simp at hc; rw [hc] at hce; cases hce⟩
 
 theorem unassignAll_quiet : ∀ (l : List IP) (s : State), QuietStep s (unassignAll s l).1 := by
   intro l
